@@ -30,10 +30,11 @@ def corpus_cases(pid):
     return out
 
 def failure_class(head, fs):
-    m = re.match(r'FAIL (C\d\d)', head)
-    pid = m.group(1) if m else 'C04' if head.startswith('PANIC') else '?'
+    """a failure can belong to several properties at once ("FAIL C01,C05 ..."): returns (property ids, class of the first)"""
+    m = re.match(r'FAIL (C\d\d(?:,C\d\d)*)', head)
+    pids = m.group(1).split(',') if m else ['C04'] if head.startswith('PANIC') else ['?']
     fam = 'cpm' if fs.startswith('cpm') else 'dos3x' if fs.startswith('dos') else fs
-    return pid, f"{pid}:{fam}"
+    return pids, fam
 
 def run_oracle(ctx, pid, lines, also=()):
     """impl-only run; failures whose oracle class belongs to `pid` (or `also`) are collected"""
@@ -55,11 +56,12 @@ def run_oracle(ctx, pid, lines, also=()):
                     a, b = kv.split('=')
                     stats[a] = stats.get(a, 0) + int(b)
             continue
-        fpid, cls = failure_class(head, t[2])
-        if fpid == pid or fpid in also:
-            ctx.failures.append({'cls': cls, 'case': ln[:3000], 'detail': head[:700]})
+        fpids, fam = failure_class(head, t[2])
+        mine = [q for q in fpids if q == pid or q in also]
+        if mine:
+            ctx.failures.append({'cls': f"{mine[0]}:{fam}", 'case': ln[:3000], 'detail': head[:700]})
         else:
-            others[fpid] = others.get(fpid, 0) + 1
+            others[fpids[0]] = others.get(fpids[0], 0) + 1
             ctx.nontrivial.add(ln)
     ctx.distribution['operation_mix(op-result=count)'] = stats
     if others:
@@ -205,11 +207,23 @@ def lockbig_cases(ctx, opts, tag):
                        f"L~{where}OTHER{ext}", f"D~{where}OTHER{ext}", f"U~{where}OTHER{ext}", f"D~{where}OTHER{ext}"]
                 out.append(f"fsh {tag}{k} {fs} {lab} {opts} {';'.join(ops)}")
                 k += 1
+        if cfg['dirs'] and specs:
+            # a protected directory (empty, then with a file in it): delete and rename refused until the protection is removed
+            for inner in (False, True):
+                ops = ["M~D1", f"P~KEEP{ext}~0~U~~~v"] + ([f"P~D1/IN{ext}~0~U~~~v"] if inner else []) + ["L~D1", "D~D1", "R~D1~D2", "U~D1", "R~D1~D2", "L~D2", "D~D2", "U~D2"]
+                ops += ([f"D~D2/IN{ext}"] if inner else []) + ["D~D2", f"D~KEEP{ext}"]
+                out.append(f"fsh {tag}{k} {fs} {lab} {opts} {';'.join(ops)}")
+                k += 1
     return out
 
 
 def dirfill_cases(ctx, opts, tag):
     return [f"fsh {tag}{i} {fs} {lab} {opts} {fsgen.dirfill_history(ctx.rng, fs, cap)}" for i, (fs, lab, cap) in enumerate(DIRFILL)]
+
+def slotfill_cases(ctx, opts, tag):
+    quick = ctx.tier == 'quick'
+    return [f"fsh {tag}{i} {fs} {lab} {opts} {fsgen.slotfill_history(ctx.rng, fs, min(cap - 3, 42 if quick else 70))}"
+            for i, (fs, lab, cap) in enumerate(DIRFILL) if not (quick and i in (5, 6, 7, 9, 10))]
 
 EXACTFIT = [('dos33', 'do:5.25in', [1, 122, 123, 244, 245]), ('dos32', 'd13:5.25in-13', [122, 123]), ('prodos', 'po:5.25in', [1, 2, 255, 256, 257]),
             ('prodos', 'po:3.5in-ds', [256, 257, 512, 513]), ('pascal', 'po:5.25in', [1, 100]), ('cpm2', 'do:5.25in', [1, 16, 17, 32, 33]),
@@ -234,11 +248,12 @@ def standard_run(ctx, pid, opts='r', lock_heavy=False, also=(), model_ok=True, n
         corr = gen_cases(ctx, MODEL_FS, n_c, '-', True, lock_heavy=lock_heavy, tag='m')
         corr += [c for c in dirfill_cases(ctx, '-', 'md') if c.split()[2] != 'cpm3']
         corr += exactfit_cases(ctx, '-', 'me')
+        corr += [c for c in slotfill_cases(ctx, '-', 'mf') if c.split()[2] != 'cpm3']
         corr += [c for c in collide_cases(ctx, '-', 'mc') if c.split()[2] != 'cpm3']
         corr += subdir_cases(ctx, '-', 'ms')
         corr += [' '.join(c.split(' ')[:4] + ['-'] + c.split(' ')[5:]).replace(' k', ' m', 1) for c in corpus_cases(pid) if c.split()[2] != 'cpm3']
         run_correspondence(ctx, corr)
-    oracle = corpus_cases(pid) + collide_cases(ctx, opts, 'oc') + bigfile_cases(ctx, opts, 'ob') + subdir_cases(ctx, opts, 'os') + (lockbig_cases(ctx, opts, 'ol') if lock_heavy else []) + dirfill_cases(ctx, opts, 'od') + exactfit_cases(ctx, opts, 'oe') + gen_cases(ctx, ALL_FS, n_o, opts, False, lock_heavy=lock_heavy, tag='o')
+    oracle = corpus_cases(pid) + collide_cases(ctx, opts, 'oc') + bigfile_cases(ctx, opts, 'ob') + subdir_cases(ctx, opts, 'os') + (lockbig_cases(ctx, opts, 'ol') if lock_heavy else []) + dirfill_cases(ctx, opts, 'od') + slotfill_cases(ctx, opts, 'of') + exactfit_cases(ctx, opts, 'oe') + gen_cases(ctx, ALL_FS, n_o, opts, False, lock_heavy=lock_heavy, tag='o')
     out = run_oracle(ctx, pid, oracle, also=also)
     ctx.samples += [oracle[-1][:300] + ' -> ' + (out.get(oracle[-1].split()[1]) or '')[:300]]
     ctx.distribution['rule'] = ('a case is one operation history on one (file system, disk kind, container); distinct by text; non-trivial = it ran to its end or to an '
